@@ -629,7 +629,10 @@ def run(chk: Check) -> int:
             chk.broke("machinery", f"no usable history for {nm}", stats["skipped_other_finding"])
     for f in chk.work.glob("c*_save_*.pickle"):
         f.unlink()
-    chk.extra.update({"feature_counts": {k: v for k, v in stats.items()}, "exhaustive": False,
+    sigs = {}
+    for f in chk.failures:
+        sigs[f["signature"]] = sigs.get(f["signature"], 0) + 1
+    chk.extra.update({"feature_counts": {k: v for k, v in stats.items()}, "exhaustive": False, "failure_signatures": sigs,
                       "partial": ["C13_l1d: state (loss tables, suggestions) of a restored Learner1D is decided by the oracle, "
                                   "the theorem covers the data dictionary"]})
     chk.log(f"{stats['histories']} histories, {stats['roundtrips']} round trips, loss compared {stats['loss_compared']}, "
